@@ -521,3 +521,148 @@ def c07_rust(ctx):
         ctx.ok("R1", "CBufferIter:drop-frees", "CBufferIter frees its buffer on drop")
     else:
         ctx.bad("R1", "CBufferIter:drop-frees", "CBufferIter no longer frees the C buffer on drop")
+
+
+# ---------------------------------------------------------------------------------------------
+# Character-class analysis: forward dataflow over a classifier closure's MIR with the domain
+# P(ASCII) — which 7-bit inputs reach each block and for which of them each bool local is true.
+# Exact for loop-free predicates built from std classifiers, comparisons with constants and
+# boolean structure; anything else makes the result None (undecided).
+
+_A = frozenset(range(128))
+_ALPHA = frozenset(list(range(65, 91)) + list(range(97, 123)))
+_DIGIT = frozenset(range(48, 58))
+STD_CLASSES = {
+    "is_ascii_alphanumeric": _ALPHA | _DIGIT, "is_alphanumeric": _ALPHA | _DIGIT,
+    "is_ascii_alphabetic": _ALPHA, "is_alphabetic": _ALPHA,
+    "is_ascii_digit": _DIGIT, "is_numeric": _DIGIT,
+    "is_ascii_lowercase": frozenset(range(97, 123)), "is_lowercase": frozenset(range(97, 123)),
+    "is_ascii_uppercase": frozenset(range(65, 91)), "is_uppercase": frozenset(range(65, 91)),
+    "is_ascii_whitespace": frozenset([9, 10, 12, 13, 32]), "is_whitespace": frozenset([9, 10, 11, 12, 13, 32]),
+    "is_ascii_punctuation": frozenset(c for c in range(33, 127) if not chr(c).isalnum()),
+    "is_ascii_hexdigit": _DIGIT | frozenset(range(65, 71)) | frozenset(range(97, 103)),
+    "is_ascii": _A, "is_ascii_graphic": frozenset(range(33, 127)), "is_ascii_control": frozenset(list(range(32)) + [127]),
+}
+_CMP = {"==": lambda a, b: a == b, "!=": lambda a, b: a != b, "<": lambda a, b: a < b, "<=": lambda a, b: a <= b, ">": lambda a, b: a > b, ">=": lambda a, b: a >= b}
+
+
+def ascii_class(fn, param_index=1):
+    """Set of ASCII code points the one-argument predicate `fn` accepts, or None if undecided."""
+    if len(fn.params) <= param_index:
+        return None
+    pid = fn.params[param_index]["id"]
+    order, seen = [], set()
+
+    def topo(b):
+        if b in seen:
+            return
+        seen.add(b)
+        for e in fn.blocks[b].succs:
+            topo(e.to)
+        order.append(b)
+    entry = min(fn.blocks)
+    topo(entry)
+    order.reverse()
+    pos = {b: i for i, b in enumerate(order)}
+    if any(pos[e.to] <= pos[b] for b in order for e in fn.blocks[b].succs):
+        return None                                   # a loop: not a plain predicate
+    IN = {entry: (_A, {pid: "P"})}
+    result = [None]
+
+    def val(env, R, e):
+        e = strip(e)
+        k = e.get("k")
+        if k == "ref":
+            return env.get(e["id"])
+        if k == "un" and e["op"] in ("&", "*"):
+            return val(env, R, e["e"])
+        if k == "un" and e["op"] == "!":
+            v = val(env, R, e["e"])
+            return (R - v) if isinstance(v, frozenset) else None
+        if k == "cast":
+            return val(env, R, e["e"])
+        if k in ("int", "const"):
+            if e.get("t") == "bool":
+                return R if e.get("v") else frozenset()
+            return ("K", e.get("v")) if isinstance(e.get("v"), int) else None
+        if k == "call":
+            nm = (e.get("fn") or "").split("::")[-1]
+            a = [val(env, R, x) for x in e.get("a", [])]
+            if nm in STD_CLASSES and a and a[0] == "P":
+                return R & STD_CLASSES[nm]
+            return None
+        if k == "bin":
+            l, r = val(env, R, e["l"]), val(env, R, e["r"])
+            op = e["op"]
+            if op in _CMP:
+                if l == "P" and isinstance(r, tuple):
+                    return frozenset(v for v in R if _CMP[op](v, r[1]))
+                if r == "P" and isinstance(l, tuple):
+                    return frozenset(v for v in R if _CMP[op](l[1], v))
+                if isinstance(l, frozenset) and isinstance(r, frozenset) and op in ("==", "!="):
+                    same = (l & r) | (R - l - r)
+                    return same if op == "==" else R - same
+            if op in ("|", "&", "^") and isinstance(l, frozenset) and isinstance(r, frozenset):
+                return {"|": l | r, "&": l & r, "^": l ^ r}[op]
+        return None
+
+    acc = frozenset()
+    for b in order:
+        if b not in IN:
+            continue
+        R, env = IN[b]
+        env = dict(env)
+        blk = fn.blocks[b]
+        last = None
+        for el in blk.elems:
+            e = el.get("e", el) if isinstance(el, dict) and "e" in el and "k" not in el else el
+            e = strip(e)
+            if e.get("k") == "assign" and strip(e["l"]).get("k") == "ref":
+                env[strip(e["l"])["id"]] = val(env, R, e["r"])
+            elif e.get("k") == "ret":
+                v = val(env, R, e["e"])
+                if not isinstance(v, frozenset):
+                    return None
+                acc |= v & R
+            last = e
+        outs = []
+        succs = blk.succs
+        if len(succs) > 1:
+            c = val(env, R, last) if last is not None else None
+            labs = [s.lab for s in succs]
+            if all(isinstance(x, str) for x in labs) and set(labs) == {"T", "F"} and isinstance(c, frozenset):
+                outs = [(s.to, R & c if s.lab == "T" else R - c) for s in succs]
+            elif c == "P":
+                cases = set()
+                for s in succs:
+                    if isinstance(s.lab, dict) and s.lab.get("case"):
+                        cases.add(s.lab.get("v"))
+                for s in succs:
+                    if isinstance(s.lab, dict) and s.lab.get("case"):
+                        outs.append((s.to, R & frozenset([s.lab.get("v")])))
+                    else:
+                        outs.append((s.to, R - frozenset(cases)))
+            else:
+                return None
+        else:
+            outs = [(s.to, R) for s in succs]
+        for to, r2 in outs:
+            if to in IN:
+                r0, e0 = IN[to]
+                merged = {}
+                for kx in set(e0) | set(env):
+                    a, bb = e0.get(kx), env.get(kx)
+                    if isinstance(a, frozenset) and isinstance(bb, frozenset):
+                        merged[kx] = (a & r0) | (bb & r2)
+                    elif a == bb:
+                        merged[kx] = a
+                    elif kx not in e0 and isinstance(bb, frozenset):
+                        merged[kx] = bb & r2
+                    elif kx not in env and isinstance(a, frozenset):
+                        merged[kx] = a & r0
+                    else:
+                        merged[kx] = None
+                IN[to] = (r0 | r2, merged)
+            else:
+                IN[to] = (r2, {kx: (v & r2 if isinstance(v, frozenset) else v) for kx, v in env.items()})
+    return acc
